@@ -274,7 +274,7 @@ def tqTrace : List String → String
       | .ok s =>
         let counts := (List.range n).map fun o => toString (s.delivered.count o)
         let terms := (List.range n).map fun o => showTerm (s.st o)
-        s!"ok delivered={String.intercalate "/" counts} term={String.intercalate "/" terms} counter={s.counter} aborted={s.aborted}"
+        s!"ok delivered={String.intercalate "/" counts} term={String.intercalate "/" terms} counter={s.counter} aborted={s.aborted} reported={decide (0 < s.errors)}"
     | _, _, _, _ => "bad-op"
   | _ => "bad-op"
 
